@@ -115,3 +115,13 @@ Proof. intros Ha Hk. unfold upper_bound, num in *. nra. Qed.
 (* sampled end-to-end distances: every element a + k*a of arange(a, m, a) below m lies in [a, m) *)
 Lemma ee_samples_in_range a m (k : nat) : 0 < a -> a + INR k * a < m -> a <= a + INR k * a < m.
 Proof. intros Ha Hlt. split; [|exact Hlt]. pose proof (pos_INR k). nra. Qed.
+
+Example ex_sphere : in_sphere (1, 1, 1) (MIn, (1, 1, 2), 3 / 2) = true /\ in_sphere (1, 1, 1) (MOut, (1, 1, 2), 3 / 2) = false.
+Proof.
+  assert (E : vnorm (vsub (1, 1, 2) (1, 1, 1)) = 1).
+  { vunfold. replace ((1 - 1) * (1 - 1) + (1 - 1) * (1 - 1) + (2 - 1) * (2 - 1)) with 1 by ring. apply sqrt_1. }
+  unfold in_sphere, tproj3_0, tproj3_1, tproj3_2. cbv zeta. cbn [fst snd mode_is_in mode_is_out andb]. rewrite E.
+  split.
+  - destruct (ngtb 1 (3 / 2)) eqn:E1; [apply ngtb_true in E1; lra|reflexivity].
+  - destruct (nltb 1 (3 / 2)) eqn:E1; [reflexivity|apply nltb_false in E1; lra].
+Qed.
